@@ -3,12 +3,16 @@
    Model: ms/RenameAbs.v [rename_abs]: the decision logic of Client.renamescript (server without
    VERSION) run directly against the reference server's [exec_command] (ms/Server.v) under a
    fault plan (each of the up to five commands answered normally, NO, BYE or not at all).
-   Proofs: ms/RenameFacts.v.  The byte-level client (ms/Client.v renamescript against srv_react)
-   is tied to rename_abs and to managesieve.py by the exhaustive correspondence check of C14
-   (initial states x fault placement x bodies); C05/C08/C09/C17 are the lemmas of that refinement. *)
-From Coq Require Import List NArith Bool.
-From SV Require Import Bytes Server RenameAbs RenameFacts.
+   Proofs: ms/RenameFacts.v (safety of [rename_abs] under every fault plan) and ms/RenameData.v (the
+   byte-level client, run by the stream semantics against the reference server with any choice of reply
+   encodings and no injected fault, REFINES [rename_abs]: same result, same final store and active script,
+   both buffers empty -- C14_emulation_refines).  With injected faults (NO / BYE / silence at each of the five
+   steps) the byte-level client is tied to rename_abs and to managesieve.py by the exhaustive correspondence
+   check of C14 (initial states x fault placement x bodies). *)
+From Coq Require Import String List NArith Bool Arith.
+From SV Require Import Bytes Client Transport Server RenameAbs RenameFacts SessionFacts SessionData RenameData.
 Import ListNotations.
+Local Open Scope nat_scope.
 
 (* every script other than old and new is untouched, whatever fails *)
 Theorem C14_untouched :
@@ -58,3 +62,16 @@ Theorem C14_invariants :
   NoDup (map fst (s_store s')) /\ active_ok s'.
 Proof. exact RenameFacts.rename_invariants. Qed.
 Print Assumptions C14_invariants.
+
+(* the byte-level emulation refines the abstract rename (no injected fault; any reply encodings) *)
+Theorem C14_emulation_refines :
+  forall F old new st (w : sworld sstate),
+    c_auth st = true -> has_cap (bs "VERSION") st = false -> ok_world w -> names_ok (s_peer sstate w) ->
+    length (s_store (s_peer sstate w)) < F -> 3 <= F ->
+    let s := s_peer sstate w in
+    exists out w',
+      interp_s sstate srv_react srv_connect srv_tls (renamescript F old new st finish) w = (out, w') /\
+      aresult_of out = Some (fst (rename_abs (fun _ => FNone) s old new)) /\
+      ok_world w' /\ same_data (snd (rename_abs (fun _ => FNone) s old new)) (s_peer sstate w').
+Proof. exact RenameData.rename_emulated_refines. Qed.
+Print Assumptions C14_emulation_refines.
